@@ -3,7 +3,16 @@ use crate::i18n::*;
 use leptos::prelude::*;
 use leptos_i18n::{I18nContext, Scope};
 
-pub const LOCS: [&str; 5] = ["en", "fr", "fr-CA", "de", "pt-BR"];
+pub const LOCS: [&str; 8] = ["en", "fr", "fr-CA", "de", "pt-br", "zh", "zh-Hant", "ar"];
+
+/// text direction of each fixture locale, written by hand (only `ar` is right-to-left)
+pub fn dir_of(locale: &str) -> &'static str {
+    if locale == "ar" {
+        "rtl"
+    } else {
+        "ltr"
+    }
+}
 
 pub fn loc(i: usize) -> Locale {
     match LOCS[i % LOCS.len()] {
@@ -11,7 +20,10 @@ pub fn loc(i: usize) -> Locale {
         "fr" => Locale::fr,
         "fr-CA" => Locale::fr_CA,
         "de" => Locale::de,
-        _ => Locale::pt_BR,
+        "pt-br" => Locale::pt_br,
+        "zh" => Locale::zh,
+        "zh-Hant" => Locale::zh_Hant,
+        _ => Locale::ar,
     }
 }
 
@@ -242,6 +254,22 @@ macro_rules! handle_home {
     }};
 }
 
+/// A view over "the context a reactive region currently provides": every access looks the context up again.
+pub fn view_cell(cur: std::rc::Rc<dyn Fn() -> I18nContext<Locale>>) -> ViewH {
+    let (c1, c2, c3, c4, c5, c6) = (cur.clone(), cur.clone(), cur.clone(), cur.clone(), cur.clone(), cur);
+    ViewH {
+        kind: "root",
+        get: std::rc::Rc::new(move || c1().get_locale()),
+        get_untracked: Box::new(move || c2().get_locale_untracked()),
+        set: Box::new(move |l| c3().set_locale(l)),
+        set_untracked: Box::new(move |l| c4().set_locale_untracked(l)),
+        n_readers: 14,
+        make_reader: Box::new(move |i| (view_root(c5()).make_reader)(i)),
+        n_scopes: 8,
+        make_scope: Box::new(move |i| (view_root(c6()).make_scope)(i)),
+    }
+}
+
 pub fn view_root(ctx: I18nContext<Locale>) -> ViewH {
     let (get, get_untracked, set, set_untracked) = base(ctx);
     ViewH {
@@ -250,8 +278,8 @@ pub fn view_root(ctx: I18nContext<Locale>) -> ViewH {
         get_untracked,
         set,
         set_untracked,
-        n_readers: 12,
-        make_reader: Box::new(move |i| match i % 12 {
+        n_readers: 14,
+        make_reader: Box::new(move |i| match i % 14 {
             0 => {
                 let f = t!(ctx, common.hello);
                 reader!("t!(common.hello)", "hello[{L}]", move || render(f()))
@@ -284,7 +312,15 @@ pub fn view_root(ctx: I18nContext<Locale>) -> ViewH {
                 let f = t!(ctx, common.app.version, v = 3);
                 reader!("t!(common.app.version, v)", "app.version[{L}] 3", move || render(f()))
             }
-            _ => reader!("tu_display!(home.title)", "title[{L}]", move || tu_display!(ctx, home.title).to_string()),
+            11 => reader!("tu_display!(home.title)", "title[{L}]", move || tu_display!(ctx, home.title).to_string()),
+            12 => reader!("td_string!(scope_locale!(common.app), name)", "app.name[{L}]", move || {
+                let l = scope_locale!(ctx.get_locale(), common.app);
+                td_string!(l, name).to_string()
+            }),
+            _ => reader!("td_display!(scope_locale!(home), sub.line)", "sub.line[{L}]", move || {
+                let l = scope_locale!(ctx.get_locale(), home);
+                td_display!(l, sub.line).to_string()
+            }),
         }),
         n_scopes: 8,
         // 4..8: `use_i18n_scoped!` looks the context up itself; the caller runs this inside the owner that provides `ctx`
